@@ -362,6 +362,13 @@ def run_op(inst, op):
             return {"ok": ["x:" + (inst.xs if k == "oser" else inst.js).render(obj), []]}
         if k in ("odec", "odecs"):
             return {"ok": ["x:" + repr((inst.dd if k == "odec" else inst.dds).decode(op["data"], clz(op["clazz"]))), []]}
+        if k == "oparse" and op.get("source") == "tree":
+            # a tree source: xml.etree for the native handler, an lxml tree for the lxml handler
+            if op.get("handler") == "native":
+                from xml.etree import ElementTree as _ET
+                return {"ok": ["x:" + repr(inst.xn.parse(_ET.ElementTree(_ET.fromstring(op["doc"])), clz(op["clazz"]))), []]}
+            import lxml.etree as _LE
+            return {"ok": ["x:" + repr(inst.xp.parse(_LE.fromstring(op["doc"].encode()).getroottree(), clz(op["clazz"]))), []]}
         if k == "oparse":
             p = inst.xn if op.get("handler") == "native" else inst.xp
             return {"ok": ["x:" + repr(p.from_string(op["doc"], clz(op["clazz"]))), []]}
